@@ -156,6 +156,17 @@ let run_case (suite : string) (r : rd) : unit =
     plist pitem (force_duration d dm u (rlist ritem r))
   | "fragment" -> let f = rz r in plist pitem (fragment f (rlist ritem r))
   | "unfragment" -> plist pitem (unfragment (rlist ritem r))
+  (* the int64 models (Model/Ops64.v): Go's wrap-around arithmetic *)
+  | "add64" -> let d = rz r in plist pitem (add_dur64 d (rlist ritem r))
+  | "force64" ->
+    let d = rz r in let dm = rbool r in let u = rn r in
+    plist pitem (force_duration64 d dm u (rlist ritem r))
+  | "fragment64" ->
+    let n = nat_of_int (rint r) in let f = rz r in
+    (match fragment64 n f (rlist ritem r) with Some l -> pint 0; plist pitem l | None -> pint 1)
+  | "lincorr64" ->
+    let a1 = rz r in let d1 = rz r in let a2 = rz r in let d2 = rz r in
+    plist pitem (linear_correction64 a1 d1 a2 d2 (rlist ritem r))
   | "fragunfrag" -> let f = rz r in plist pitem (unfragment (fragment f (rlist ritem r)))
   | "optimize" -> psubs (optimize (rsubs r))
   | "rmstyle" -> psubs (remove_styling (rsubs r))
